@@ -1251,9 +1251,16 @@ def clean_events(trace, relaxed=False):
             for i, e in enumerate(trace, start=1)]
 
 
+def harmless_kept(b, verdict) -> bool:
+    """A mismatch note that only says "the restore left a side file in place", in a run in which - by the model's replay of the
+    performed operations - nobody ever trusted that file (it was rebuilt / removed later): a difference without consequence."""
+    return b.get("cls") == "unlink" and bool(b.get("kept")) and str(b.get("why", "")).startswith("the restore left") and (verdict or {}).get("stale") == "none"
+
+
 def explained_by(verdict) -> bool:
     """The performed trace agrees with the model up to the point where a deviation took effect."""
-    return bool(verdict) and not [b for b in verdict["bad"] if not (b["raced"] or b["snapfail"])] and (verdict["raced"] or verdict["snapfail"])
+    return (bool(verdict) and not [b for b in verdict["bad"] if not (b["raced"] or b["snapfail"] or harmless_kept(b, verdict))]
+            and (verdict["raced"] or verdict["snapfail"]))
 
 
 def jm_obs(verdict) -> list:
@@ -1389,7 +1396,7 @@ def judge(o: Outcome, case: dict, real: list, st_ok: bool, predicted, verdict, d
         # model agrees with every recorded operation up to the point where a deviation
         # (stale restore check / stale snapshot) took effect; what the damaged files do to
         # later operations is not modelled in detail
-        pre = [b for b in verdict["bad"] if not (b["raced"] or b["snapfail"])]
+        pre = [b for b in verdict["bad"] if not (b["raced"] or b["snapfail"] or harmless_kept(b, verdict))]
         if not pre:
             devs = [DEV_OF_FLAG[f] for f in ("raced", "snapfail") if verdict[f]]
             same = [r == "ok" for r in real] == [r == "ok" for r in list(verdict["res"])[: len(real)]] and bool(verdict["store"]) == st_ok
@@ -1415,7 +1422,8 @@ def judge(o: Outcome, case: dict, real: list, st_ok: bool, predicted, verdict, d
         sidet = side_text(verdict)
         first += sidet + jm_text(verdict) + tx_text(verdict, idle)
         o.violation(dict(case, model=verdict), why + " (not explained by the as-is model" + first + ")",
-                    cls=("stale side file left by the restore" if sidet else "unexplained") + ("" if case.get("kind") != "V-stress" else " (free-running)"))
+                    cls=("stale side file left by the restore" if sidet and verdict.get("stale") != "none" else "unexplained")
+                    + ("" if case.get("kind") != "V-stress" else " (free-running)"))
     return "bad"
 
 
@@ -1917,6 +1925,9 @@ def selftest() -> int:
         br = tlc("Gen_Workers", "Gen_Workers_boot3.cfg", workers=1)
         bcase = next(c for c in br.cases if not c["scn"]["boot"] and c["idlew"][-1] == 2)
         brp = replay_chunk([(2, bcase)])[0]
+        sr = tlc("Gen_Workers", "Gen_Workers_restore.cfg", workers=1)
+        scase = next(c for c in sr.cases if c["scn"]["bak"] and c["live"] == ["D"] and c["after"] == 2)
+        srp = replay_chunk([(3, scase)])[0]
     ev = clean_events(rp["trace"])
     item = {"tid": 1, "scn": case["scn"], "n": 2, "events": ev, "real": rp["real"]}
     good = validate_traces(o, [item], "st")[1]
@@ -1960,4 +1971,21 @@ def selftest() -> int:
           "; idle point of worker 2 reported inside a transaction:", tx_obs(bbad)[:1], "; judged: drift =", o3.drift_count, "violations =", len(o3.violations))
     tx_ok = (not bgood["bad"] and not tx_obs(bgood) and all(x == "ok" for x in brp["real"]) and any(e["tx"] == "y" for e in bev)
              and [b["k"] for b in tx_obs(bbad)] == ["idle"] and o3.drift_count >= 1 and not o3.violations)
-    return 0 if (not good["bad"] and bad["bad"] and res_ok == "ok" and res_bad == "bad" and o2.violations and life_ok and tx_ok) else 1
+    # side files: a restore while the creating context (it wrote the backup) has the replaced database open; the performed trace of
+    # the real library (both side files removed) is a behaviour of the model; the same trace with the unlink step reported as
+    # having left <db>-shm -> TLC: the first access that follows trusts an index without its log (model: ioerr, recorded: ok)
+    sev = clean_events(srp["trace"])
+    sitem = {"tid": 1, "scn": scase["scn"], "n": 2, "events": sev, "real": srp["real"]}
+    sgood = validate_traces(o, [sitem], "st_restore")[1]
+    sbad_ev = json.loads(json.dumps(sev))
+    k = next(i for i, e in enumerate(sbad_ev) if e["cls"] == "unlink")
+    sbad_ev[k]["ks"] = True
+    sbad = validate_traces(o, [dict(sitem, events=sbad_ev)], "st_restore_bad")[1]
+    print("restore beside the open creating context:", [[e["p"], e["l"]] for e in scase["sched"]][:8], "... who had the replaced database open:", scase["live"])
+    print("performed:", [(e["p"], e["cls"], e["r"]) + ((e.get("rm"),) if e["cls"] == "unlink" else ()) for e in srp["trace"]][:8], "real:", srp["real"], "store ok:", srp["store_ok"])
+    print("unmodified: mismatches =", len(sgood["bad"]), "model:", sgood["live"], sgood["stale"], "; unlink step reported to leave <db>-shm:",
+          [(b["cls"], b["r"], b["why"], b["expected"]) for b in sbad["bad"][:2]], "model stale =", sbad["stale"], "res =", sbad["res"])
+    side_ok = (not sgood["bad"] and sgood["stale"] == "none" and "D" in sgood["live"] and all(x == "ok" for x in srp["real"]) and srp["store_ok"]
+               and len(sbad["bad"]) >= 2 and sbad["bad"][0]["cls"] == "unlink" and sbad["bad"][0]["kept"] == ["shm"] and sbad["stale"] == "shm"
+               and any(b["cls"] == "script" and b["expected"] == "ioerr" for b in sbad["bad"]))
+    return 0 if (not good["bad"] and bad["bad"] and res_ok == "ok" and res_bad == "bad" and o2.violations and life_ok and tx_ok and side_ok) else 1
